@@ -213,7 +213,7 @@ CLAIMED.update({
                 "compressed (HIR match-arm tables, alignment+variant, sync+async); detection window assumption (known finding F6); finish reaches "
                 "every arm and every generic writer has a finishing call dispatching to all arms; default compression; configuration plumbing: every field of every workspace Builder struct is read by a consumer (an option "
                 "stored by a setter cannot be silently ignored). Conversions are NOT decided.",
-        "note": "R2 found a genuine defect (swapped BCF writer arms), repaired (fix: 087a76d); the variant writers (sync and async) had no finishing call at all, repaired (fix: 34fcaac, 5e6a7ff; rule R4/no-finisher); F6 listed by exact keys; R6 VCF->BCF dictionary order (shared with C10.R10); round 8: R8 dispatch agreement of the noodles-util wrappers (seed: Bam arm forwarding to another accessor); genuine defect F59 (empty SAM.gz not detected) repaired (fix: d0bdd27; rule R9)",
+        "note": "R2 found a genuine defect (swapped BCF writer arms), repaired (fix: 087a76d); the variant writers (sync and async) had no finishing call at all, repaired (fix: 34fcaac, 5e6a7ff; rule R4/no-finisher); F6 listed by exact keys; R6 VCF->BCF dictionary order (shared with C10.R10); round 8: R8 dispatch agreement of the noodles-util wrappers (seed: Bam arm forwarding to another accessor); genuine defects F59 (empty SAM.gz not detected; fix: d0bdd27; R9) and F62 (CRAM records lost between read_record and records(); fix: 89a43dd; R10) repaired",
         "technique": "static analysis: HIR match-table agreement between sibling builders, evaluated constants, fill_buf window classification",
         "design_ref": "§5 C20",
     },
